@@ -5,8 +5,13 @@ import multiprocessing
 import os
 import tempfile
 
+import hashlib
+import zlib
+
 import det
 import tlc
+import images
+from decoders import iso9660
 from realize import Table
 from driver import Session, open_view
 
@@ -48,6 +53,17 @@ def replay_one(item):
             (ores, v) = open_view(data, _TAB)
             m['ores'] = ores
             m['o'] = v
+            if v is not None and _OPTS.get('decode', True):
+                rep = iso9660.decode(data)
+                v['dec'] = dec_obs(rep, _TAB)
+                every = _OPTS.get('image_every', 0)
+                if every and (zlib.crc32(str(tid).encode()) % every) == 0:
+                    bits = [x['x'] for x in v['dec']['iso'] if x['b'].startswith('bit:')]
+                    extra['item'] = images.image_item(
+                        str(tid), data, wlog, bit_sectors=bits, report=rep,
+                        do_remaster=(zlib.crc32(str(tid).encode()) % (every * _OPTS.get('remaster_every', 1))) == 0,
+                        expect={'joliet': v['cfg']['joliet'], 'level': acts[0]['cfg']['level'] if 'cfg' in acts[0] else 1})
+                    extra['sha'] = hashlib.sha256(data).hexdigest()
             if _OPTS.get('keep_image'):
                 extra['image'] = data
                 extra['wlog'] = wlog
@@ -61,6 +77,32 @@ def replay_one(item):
     return t
 
 
+def dec_obs(rep, tab):
+    """what the independent ISO9660/Joliet decoder recovers, in model terms (name ids, blob ids)"""
+    out = {'on': True, 'iso': [], 'jol': []}
+    for ns in ('iso', 'jol'):
+        if ns not in rep['trees']:
+            continue
+
+        def ids(path):
+            if ns == 'jol':
+                return [tab.unname('jol', ''.join(chr(c) for c in comp)) for comp in path]
+            return [tab.unname('iso', bytes(comp).decode('latin-1')) for comp in path]
+        for d in rep['trees'][ns]:
+            if d['path']:
+                out[ns].append({'p': ids(d['path']), 'k': 'dir', 'b': '', 'x': 0, 'n': 0})
+        for f in rep['files'].get(ns, []):
+            b = tab.sha.get(f['sha'], '?' + f['sha'][:8])
+            if b.startswith('?') and f['size'] == 2048:
+                b = 'cat?'
+            out[ns].append({'p': ids(f['path']), 'k': 'file', 'b': b,
+                            'x': f['extent'] if isinstance(f['extent'], int) else -1,
+                            'n': f['size'] if isinstance(f['size'], int) else -1})
+        out[ns].sort(key=lambda e: e['p'])
+    return out
+
+
+NO_DEC = {'on': False, 'iso': [], 'jol': []}
 SCHED = ('ForceConsistency', 'Query', 'Walk', 'Write')
 
 
@@ -121,6 +163,7 @@ def build_input(tab, traces):
         if 'peek_error' in o:
             o = dict(EMPTY_OBS, err=['peek:' + o['peek_error']])
         slim = {k: o[k] for k in ('cfg', 'iso', 'rrv', 'jol', 'udf', 'npvd', 'err')}
+        slim['dec'] = o.get('dec', NO_DEC)
         key = json.dumps(slim, sort_keys=True)
         if key not in obs_index:
             obs_list.append(slim)
